@@ -12,6 +12,11 @@ def sh(cmd, cwd=wt, **kw):
     return subprocess.run(cmd, shell=True, cwd=cwd, env=env, capture_output=True, text=True, **kw)
 
 
+import re
+sh("git checkout -- src")
+_base = sh("/venv/bin/python -m pytest -q -p no:cacheprovider src/chmpy/tests 2>&1 | tail -1").stdout
+BASE = tuple(re.findall(r"(\d+) (failed|passed)", _base))
+print("baseline on the unchanged worktree:", BASE)
 for name in sorted(os.listdir(f"{wt}/mutants")):
     d = f"{wt}/mutants/{name}"
     if not os.path.exists(f"{d}/patch.diff"):
@@ -24,7 +29,7 @@ for name in sorted(os.listdir(f"{wt}/mutants")):
     t = sh("/venv/bin/python -m pytest -q -p no:cacheprovider src/chmpy/tests 2>&1 | tail -1")
     mut_demo = sh(f"/venv/bin/python {d}/demo.py")
     sh("git checkout -- src")
-    tests_ok = "94 passed" in t.stdout and "4 failed" in t.stdout
+    tests_ok = tuple(re.findall(r"(\d+) (failed|passed)", t.stdout)) == BASE
     ok = tests_ok and base_demo.returncode == 0 and mut_demo.returncode != 0
     print(name, "tests:", t.stdout.strip()[-40:], "| demo base rc", base_demo.returncode, "mutant rc", mut_demo.returncode, "=> confirmed" if ok else "=> REJECTED")
     if not ok:
